@@ -105,7 +105,7 @@ Record stream := mkStream {
 }.
 
 Record task := mkTask {
-  tk : N;            (* kind 1..7 *)
+  tk : N;            (* kind 1..8 *)
   tid : N;           (* explicit packet id, 0 = automatic *)
   tsize : N;         (* kind 7: payload size *)
   tst : tstate;
@@ -188,10 +188,17 @@ Definition enc_packet (s : sink) (tag id : N) : sink * bool :=
     if negb (crem s =? 0) then (s, false) else (add_wire s [tag; id], true)
   else (s, true).
 
-(* io.encode(Encoded::Publish(pkt, payload), codec): never fails for the packets built here; the codec
-   records how much payload is still to be streamed *)
+(* io.encode(Encoded::Publish(pkt, payload), codec) of a packet within the size limits (the Ok branch): the
+   codec records how much payload is still to be streamed *)
 Definition enc_publish (s : sink) (tag id rem : N) : sink :=
   if io s =? 0 then set_crem (add_wire s [tag; id]) rem else s.
+
+(* io.encode(Encoded::Publish(pkt, payload), codec) of a packet that may exceed the maximum outbound packet
+   size ([big]): the codec compares the encoded size with its limit before it writes or records anything
+   (EncodeError::OverMaxPacketSize, nothing is left in the write buffer); a closed/closing io never reaches the
+   codec: no-op Ok.  false = Err *)
+Definition enc_publish_chk (s : sink) (big : bool) (tag id rem : N) : sink * bool :=
+  if big && (io s =? 0) then (s, false) else (enc_publish s tag id rem, true).
 
 (* io.encode(Encoded::PayloadChunk(n bytes), codec) *)
 Definition enc_chunk (s : sink) (n : N) : sink * bool :=
@@ -350,15 +357,19 @@ Fixpoint ack_list (s : sink) (l : list (N * N)) : sink :=
   | (k, id) :: r => ack_list (ack_one s k id) r
   end.
 
-(* wait_publish_response(id, ack, pkt, payload): inl c = Ok(rx), inr status = Err *)
-Definition wait_publish_response (s : sink) (id ack rem tag : N) : sink * (nat + N) :=
+(* wait_publish_response(id, ack, pkt, payload): inl c = Ok(rx), inr status = Err; [big]: the PUBLISH is
+   larger than the maximum outbound packet size.  `Err(e) => Err(SendPacketError::Encode(e))`: nothing is
+   registered -- no in-flight entry, the id is not reserved, the streaming state is not set *)
+Definition wait_publish_response (s : sink) (id ack rem tag : N) (big : bool) : sink * (nat + N) :=
   if negb (srem s =? 0) then (s, inr ST_ENCODE)                        (* check_streaming: ExpectPayload *)
   else if memN id (ids s) then (s, inr ST_IDINUSE)
   else
-    let s1 := enc_publish s tag id rem in
-    let s2 := set_srem s1 rem in
-    let '(s3, c) := new_chan s2 in
-    (set_ids (set_inflight s3 (inflight s3 ++ [(id, Some c, ack)])) (ids s3 ++ [id]), inl c).
+    let '(s1, ok) := enc_publish_chk s big tag id rem in
+    if ok then
+      let s2 := set_srem s1 rem in
+      let '(s3, c) := new_chan s2 in
+      (set_ids (set_inflight s3 (inflight s3 ++ [(id, Some c, ack)])) (ids s3 ++ [id]), inl c)
+    else (s1, inr ST_ENCODE).                                           (* OverMaxPacketSize *)
 
 (* wait_response(id, ack, pkt) *)
 Definition wait_response (s : sink) (id ack tag : N) : sink * (nat + N) :=
@@ -424,7 +435,9 @@ Definition acktype_of (k : N) : N := if k =? 2 then 2 else 1.
 Definition pubtag_of (k : N) : N := if k =? 2 then W_PUB2 else W_PUB1.
 
 (* send_at_least_once_inner / send_exactly_once_inner / stream_at_least_once_inner, up to the first
-   poll of the acknowledgement receiver *)
+   poll of the acknowledgement receiver.  Kind 8 is send_at_least_once with a payload that makes the PUBLISH
+   larger than the maximum outbound packet size: set_publish_id has already advanced the id counter (automatic
+   id) when the encode fails *)
 Definition inner_publish (s : sink) (x : task) : sink * tstate :=
   let k := tk x in
   match (if tid x =? 0 then next_id s else Some (s, tid x)) with       (* set_publish_id *)
@@ -433,7 +446,8 @@ Definition inner_publish (s : sink) (x : task) : sink * tstate :=
     if (k =? 7) && negb (match sig_of x with Some c => rx_alive s1 c | None => true end) then
       (s1, TDone ST_OTHER)                                             (* tx.is_canceled(): StreamingCancelled *)
     else
-      let '(s2, r) := wait_publish_response s1 id (acktype_of k) (if k =? 7 then tsize x else 0) (pubtag_of k) in
+      let '(s2, r) := wait_publish_response s1 id (acktype_of k) (if k =? 7 then tsize x else 0) (pubtag_of k)
+                                            (k =? 8) in
       let s3 := if k =? 7 then send_opt s2 (sig_of x) 0 else s2 in     (* let _ = tx.send(()) *)
       match r with
       | inl c => (s3, TAwaitAck c id)                                  (* fresh receiver: Pending *)
@@ -480,7 +494,7 @@ Definition start_task (s : sink) (t k idq size : N) : sink :=
   match find_task t (tasks s) with
   | Some _ => s
   | None =>
-    if (k =? 0) || (7 <? k) then s
+    if (k =? 0) || (8 <? k) then s
     else if k =? 6 then
       let '(s1, st) := if is_closed s then (s, ST_DISCONNECTED) else encode_publish0 s in
       set_tasks s1 (put_task t (mkTask k 0 0 (TDone st) false None) (tasks s1))
@@ -567,7 +581,7 @@ Definition drop_task (s : sink) (t : N) : sink :=
   end.
 
 (* operation 16: call the API for task t, do NOT poll the returned future.
-     kinds 1, 2, 7 (send_at_least_once / send_exactly_once / stream_at_least_once are plain fns and so are their
+     kinds 1, 2, 7, 8 (send_at_least_once / send_exactly_once / stream_at_least_once are plain fns and so are their
        *_inner helpers): the closed check, wait_readiness and -- when not parked -- packet id, write and
        registration all happen in the call; an error of that synchronous part is returned by the first poll;
        a panic in the call (next_id overflow) leaves no future;
@@ -585,7 +599,7 @@ Definition create_task (s : sink) (t k idq size : N) : sink :=
   match find_task t (tasks s) with
   | Some _ => s
   | None =>
-    if (k =? 0) || (7 <? k) then s
+    if (k =? 0) || (8 <? k) then s
     else if k =? 6 then start_task s t k idq size
     else if k =? 5 then
       let '(s1, st) :=
